@@ -701,7 +701,7 @@ def run(repo, rep):
              'layer enumerates its candidates (648 situations, every '
              'permutation of layers of two and three)')
     resmodel.report_situations(repo, rep, 'R06g', (
-        'order-independent', 'outcome'),
+        'order-independent', 'outcome', 'chosen-overload-runs-alone'),
         'the outcome of overload choice depends on enumeration order')
     # two clauses other properties decide, which are order clauses too: a
     # merged layer is the *union* of what its members offer (no "first
